@@ -338,6 +338,8 @@ def run_case_(k, case, tmpdir, mode):
                     yattrs = dict((a, v) for a, v in y.__dict__.items() if a != "__provides__")
                     ob["struct"] = type(y) is type(x) and yattrs == attrs and \
                         (("__provides__" in y.__dict__) == ("__provides__" in x.__dict__))
+                    # for an instance "same" means: it carries the identical declaration object (or none)
+                    ob["same"] = y.__dict__.get("__provides__") is x.__dict__.get("__provides__")
                 bad = scan(pay, allowed_globals, list(attrs) + ["__provides__"] if is_inst else [], is_inst)
                 ob["badops"], ob["bad"] = len(bad), bad[:6]
             except Exception as e:
